@@ -11,7 +11,9 @@ import (
 
 	"github.com/yuin/goldmark"
 	"github.com/yuin/goldmark/extension"
+	"github.com/yuin/goldmark/parser"
 	"github.com/yuin/goldmark/renderer/html"
+	"github.com/yuin/goldmark/text"
 
 	"github.com/yuin/goldmark/ast"
 
@@ -117,8 +119,75 @@ func histStrings(h []c06Op) []string {
 	return out
 }
 
+// runC06EntryPoints: the same source and configuration through every entry point of the public API must give the same
+// bytes: Markdown.Convert; Parser().Parse + Renderer().Render; Convert with an explicitly supplied fresh parse context;
+// Parse with an explicitly supplied fresh context; a second Render of the tree; and, for the default
+// configuration, the package-level goldmark.Convert and a Markdown assembled from DefaultParser/DefaultRenderer.
+func runC06EntryPoints(r *core.Run) {
+	docs := c12StructuredDocs(r.Quick())
+	for _, cn := range []string{"core", "all+autoid+attr", "custom2+autoid+unsafe+xhtml"} {
+		cfg := core.MustCfg(cn)
+		s := r.Sub("entry-points/"+cn, fmt.Sprintf("%d documents of the structured corpus under %s: Convert == Parse+Render == Convert(WithContext(new context)) == Parse(WithContext(NewContext()))+Render == second Render of that tree (and, for core, == package-level goldmark.Convert == a Markdown built from DefaultParser()/DefaultRenderer())", len(docs), cn))
+		s.Bound = fmt.Sprintf("%d documents × 5–7 entry points", len(docs))
+		complete := core.ForEachIndex(len(docs), core.Workers(), func(w int) func(int) {
+			cv := core.NewConv(cfg)
+			var dflt goldmark.Markdown
+			if cn == "core" {
+				dflt = goldmark.New(goldmark.WithParser(goldmark.DefaultParser()), goldmark.WithRenderer(goldmark.DefaultRenderer()))
+			}
+			var ref, b bytes.Buffer
+			return func(i int) {
+				src := docs[i]
+				out, ok := mustConvert(s, cv, src)
+				if !ok {
+					return
+				}
+				ref.Reset()
+				ref.Write(out)
+				check := func(name string, f func() error) {
+					b.Reset()
+					var err error
+					func() {
+						defer func() {
+							if p := recover(); p != nil {
+								err = fmt.Errorf("panic: %v", p)
+							}
+						}()
+						err = f()
+					}()
+					s.Evals.Add(1)
+					if err != nil || !bytes.Equal(b.Bytes(), ref.Bytes()) {
+						s.Violate("entry-point-differs:"+name, cfg.String(), src, nil, fmt.Sprintf("%s gives other bytes than Convert (err=%v)", name, err), ref.String(), b.String())
+					}
+				}
+				md := cv.MD
+				check("Parse+Render", func() error { return md.Renderer().Render(&b, src, md.Parser().Parse(text.NewReader(src))) })
+				check("Convert(WithContext)", func() error { return md.Convert(src, &b, parser.WithContext(parser.NewContext())) })
+				var tree ast.Node
+				check("Parse(WithContext)+Render", func() error {
+					tree = md.Parser().Parse(text.NewReader(src), parser.WithContext(parser.NewContext()))
+					return md.Renderer().Render(&b, src, tree)
+				})
+				check("second Render", func() error { return md.Renderer().Render(&b, src, tree) })
+				if dflt != nil {
+					check("goldmark.Convert", func() error { return goldmark.Convert(src, &b) })
+					check("DefaultParser/DefaultRenderer", func() error { return dflt.Convert(src, &b) })
+				}
+				s.Distinct(core.Hash(out))
+			}
+		}, r.Expired)
+		if !complete {
+			s.Incomplete("internal deadline reached")
+		}
+		s.States.Store(int64(len(docs)))
+		s.Transitions.Store(s.Evals.Load())
+		s.Done()
+	}
+}
+
 func runC06(r *core.Run) {
 	runC06Order(r)
+	runC06EntryPoints(r)
 	depth := core.Pick(r, 3, 4)
 	ops := c06Ops(len(c06Docs))
 	for _, cn := range []string{"core", "gfm", "all+autoid+attr", "all+cjk+autoid+attr+xhtml+align=style", "custom+autoid+attr+unsafe"} {
